@@ -137,6 +137,57 @@ theorem pollFlushLen_eq (write : σ → Nat → WriteAns × σ) (buf : List α) 
     l.res = o.res ∧ l.len = o.buf.length ∧ l.accepted = o.accepted.length ∧ l.sock = o.sock :=
   loopLen_eq write buf buf.length 0 [] s (Nat.zero_le _) rfl
 
+/-- any reflexive-transitive relation that every socket step respects is respected by the loop -/
+theorem loopLen_rel (write : σ → Nat → WriteAns × σ) (R : σ → σ → Prop) (hrefl : ∀ s, R s s)
+    (htrans : ∀ a b c, R a b → R b c → R a c) (hw : ∀ s off, R s (write s off).2) (len : Nat) :
+    ∀ (fuel written : Nat) (s : σ), R s (loopLen write len fuel written s).sock := by
+  intro fuel
+  induction fuel with
+  | zero => intro written s; exact hrefl s
+  | succ fuel ih =>
+    intro written s
+    unfold loopLen
+    split
+    · have h1 := hw s (len - written)
+      split
+      · next s' hws => rw [hws] at h1; exact h1
+      · next s' hws => rw [hws] at h1; exact h1
+      · next k s' hws => rw [hws] at h1; exact htrans _ _ _ h1 (ih _ _)
+    · exact hrefl s
+
+/-- the length-only loop returns `Pending` only because the socket answered `Pending` -/
+theorem loopLen_pending (write : σ → Nat → WriteAns × σ) (len : Nat) :
+    ∀ (fuel written : Nat) (s : σ) (o : OutLen σ), loopLen write len fuel written s = o →
+      o.res = .pending → ∃ s₁ offered, write s₁ offered = (.pending, o.sock) := by
+  intro fuel
+  induction fuel with
+  | zero => intro written s o ho h; subst ho; simp [loopLen] at h
+  | succ fuel ih =>
+    intro written s o ho h
+    unfold loopLen at ho
+    split at ho
+    · split at ho
+      · subst ho; simp at h
+      · next s' hws => subst ho; exact ⟨s, _, hws⟩
+      · next k s' hws => exact ih _ _ _ ho h
+    · subst ho; simp at h
+
+theorem loopLen_drained_len (write : σ → Nat → WriteAns × σ) (len : Nat) :
+    ∀ (fuel written : Nat) (s : σ) (o : OutLen σ), loopLen write len fuel written s = o →
+      o.res = .drained → o.len = 0 := by
+  intro fuel
+  induction fuel with
+  | zero => intro written s o ho _; subst ho; simp [loopLen]
+  | succ fuel ih =>
+    intro written s o ho h
+    unfold loopLen at ho
+    split at ho
+    · split at ho
+      · subst ho; simp at h
+      · subst ho; simp at h
+      · exact ih _ _ _ ho h
+    · subst ho; rfl
+
 /-! ### the session invariant -/
 
 /-- `accepted ++ writeBuf = produced` while the connection lives; after a `WriteZero` error the
@@ -200,5 +251,119 @@ theorem Sess.inv_run (write : σ → Nat → WriteAns × σ) (evs : List (Ev α)
 
 theorem Sess.inv_init (s : σ) : ({ sock := s } : Sess σ α).Inv := by
   refine ⟨fun _ => rfl, fun h => ?_, fun h => ?_⟩ <;> simp at h
+
+
+/-! ### termination of flushing against a socket that blocks finitely often -/
+
+def countPending : List WriteAns → Nat
+  | [] => 0
+  | .pending :: as => countPending as + 1
+  | _ :: as => countPending as
+
+def noZero : List WriteAns → Bool
+  | [] => true
+  | .zero :: _ => false
+  | _ :: as => noZero as
+
+/-- against the oracle-list socket the loop either drains, or stops at a `pending` answer which
+it has consumed (one fewer left), or hits a `zero` -/
+theorem loop_listSock (buf : List α) :
+    ∀ (fuel written : Nat) (acc : List α) (o : List WriteAns),
+      written ≤ buf.length → buf.length - written ≤ fuel → noZero o = true →
+      let r := loop listSock buf fuel written acc o
+      (r.res = .drained ∧ countPending r.sock ≤ countPending o ∧ noZero r.sock = true) ∨
+      (r.res = .pending ∧ countPending r.sock < countPending o ∧ noZero r.sock = true) := by
+  intro fuel
+  induction fuel with
+  | zero =>
+    intro written acc o hw hf hz
+    exact Or.inl ⟨rfl, Nat.le_refl _, hz⟩
+  | succ fuel ih =>
+    intro written acc o hw hf hz
+    unfold loop
+    by_cases hlt : written < buf.length
+    · simp only [hlt, if_true]
+      cases o with
+      | nil =>
+        simp only [listSock]
+        have hn2 : min (max (buf.length - written) 1) (buf.length - written) = buf.length - written := by omega
+        rw [hn2]
+        have := ih (written + (buf.length - written)) (acc ++ (buf.drop written).take (buf.length - written)) []
+          (by omega) (by omega) rfl
+        exact this
+      | cons a as =>
+        cases a with
+        | zero => simp [noZero] at hz
+        | pending =>
+          simp only [listSock]
+          exact Or.inr ⟨by simp, by simp [countPending], by simpa [noZero] using hz⟩
+        | accept k =>
+          simp only [listSock]
+          have hn1 : 1 ≤ min (max k 1) (buf.length - written) := by omega
+          have hn2 : min (max k 1) (buf.length - written) ≤ buf.length - written := by omega
+          generalize min (max k 1) (buf.length - written) = n at hn1 hn2
+          have := ih (written + n) (acc ++ (buf.drop written).take n) as (by omega) (by omega)
+            (by simpa [noZero] using hz)
+          simpa [countPending] using this
+    · simp only [hlt, if_false]
+      exact Or.inl ⟨by simp, Nat.le_refl _, hz⟩
+
+/-- flushing an empty buffer is a no-op, however often -/
+theorem flush_empty_run (write : σ → Nat → WriteAns × σ) (n : Nat) :
+    ∀ (x : Sess σ α), x.writeBuf = [] → x.dead = false →
+      let y := x.run write (List.replicate n .flush)
+      y.writeBuf = [] ∧ y.accepted = x.accepted ∧ y.produced = x.produced ∧ y.dead = false := by
+  induction n with
+  | zero => intro x hb hd; exact ⟨hb, rfl, rfl, hd⟩
+  | succ n ih =>
+    intro x hb hd
+    simp only [List.replicate_succ, Sess.run, List.foldl_cons]
+    have hstep : x.step write .flush = { x with last := some .drained } := by
+      simp [Sess.step, hd, hb, pollFlush, loop]
+    rw [hstep]
+    have := ih { x with last := some .drained } hb hd
+    simpa [Sess.run] using this
+
+/-- repeated `poll_flush` calls (one per wake-up) against a socket that answers `Pending` at most
+`n - 1` more times and never `0`: after `n` calls everything produced has been accepted -/
+theorem flush_terminates (n : Nat) :
+    ∀ (x : Sess (List WriteAns) α), x.Inv → x.dead = false → noZero x.sock = true →
+      countPending x.sock < n →
+      let y := x.run listSock (List.replicate n .flush)
+      y.writeBuf = [] ∧ y.accepted = y.produced ∧ y.produced = x.produced ∧ y.dead = false := by
+  induction n with
+  | zero => intro x _ _ _ h; omega
+  | succ n ih =>
+    intro x hinv hd hz hc
+    simp only [List.replicate_succ, Sess.run, List.foldl_cons]
+    have hinv' := Sess.inv_step listSock x .flush hinv
+    generalize hx' : x.step listSock .flush = x' at hinv'
+    have hstep : x' = { x with writeBuf := (pollFlush listSock x.writeBuf x.sock).buf,
+                               accepted := x.accepted ++ (pollFlush listSock x.writeBuf x.sock).accepted,
+                               sock := (pollFlush listSock x.writeBuf x.sock).sock,
+                               last := some (pollFlush listSock x.writeBuf x.sock).res,
+                               dead := (pollFlush listSock x.writeBuf x.sock).res == .writeZero } := by
+      subst hx'; simp [Sess.step, hd]
+    have hl := loop_listSock x.writeBuf x.writeBuf.length 0 [] x.sock (Nat.zero_le _) (by omega) hz
+    have hprod : x'.produced = x.produced := by rw [hstep]
+    rcases hl with ⟨hr, hcp, hz'⟩ | ⟨hr, hcp, hz'⟩
+    · -- drained: nothing left; further flushes keep it that way
+      have hdead : x'.dead = false := by rw [hstep]; simp [pollFlush, hr]
+      have hlast : x'.last = some .drained := by rw [hstep]; simp [pollFlush, hr]
+      obtain ⟨h1, _, h3⟩ := hinv'
+      obtain ⟨_, hb⟩ := h3 hlast
+      have hacc := h1 hdead
+      rw [hb, List.append_nil] at hacc
+      obtain ⟨a, b, c, d⟩ := flush_empty_run listSock n x' hb hdead
+      simp only [Sess.run] at a b c d
+      exact ⟨a, by rw [b, c]; exact hacc, c.trans hprod, d⟩
+    · -- pending: one `pending` answer consumed
+      have hdead : x'.dead = false := by rw [hstep]; simp [pollFlush, hr]
+      have hsock : x'.sock = (pollFlush listSock x.writeBuf x.sock).sock := by rw [hstep]
+      have hlt : countPending x'.sock < n := by rw [hsock]; simp [pollFlush] at hcp ⊢; omega
+      have := ih x' hinv' hdead (by rw [hsock]; exact hz') hlt
+      simp only [Sess.run] at this
+      obtain ⟨a, b, c, d⟩ := this
+      exact ⟨a, b, c.trans hprod, d⟩
 
 end ActixModel.Flush
